@@ -30,6 +30,9 @@ pub struct Case {
     pub sched: IoSchedule,
     /// if set, only these limits are tried (minimised replay files)
     pub only: Option<Vec<u64>>,
+    /// non-zero: seed of a per-atom representation plan for the tree handed to the serializers
+    #[serde(default)]
+    pub repr: u64,
 }
 
 fn tok_at(toks: &[Tok], off: usize) -> &'static str {
@@ -108,6 +111,7 @@ impl Scenario for C29 {
             extra_seed: rng.next_u64(),
             sched,
             only: None,
+            repr: if rng.chance(1, 4) { rng.next_u64() | 1 } else { 0 },
         }
     }
 
@@ -115,7 +119,7 @@ impl Scenario for C29 {
         let mut out = Outcome::default();
         let mut fp = Fp::default();
         let mut a = Allocator::new();
-        let Ok(node) = case.tree.to_alloc(&mut a) else {
+        let Ok(node) = crate::scen::interp2::to_alloc_repr(&mut a, &case.tree, case.repr, &mut out) else {
             return out;
         };
         if model::ser_len(&case.tree) > 24 << 20 {
@@ -270,8 +274,12 @@ impl Scenario for C29 {
                 extra_seed: case.extra_seed,
                 sched: case.sched.clone(),
                 only: None,
+                repr: case.repr,
             })
             .collect();
+        if case.repr != 0 {
+            v.push(Case { repr: 0, ..case.clone() });
+        }
         if !case.sched.steps.is_empty() {
             v.push(Case {
                 sched: IoSchedule::clean(),
